@@ -1,4 +1,5 @@
 mod c09;
+mod c12;
 mod c13;
 mod c16;
 mod recdest;
@@ -33,8 +34,33 @@ fn main() {
         Some(p) => Box::new(std::io::BufWriter::new(std::fs::File::create(p).unwrap())),
         None => Box::new(std::io::BufWriter::new(std::io::stdout())),
     };
+    if args[1] == "one" {
+        // re-run single cases by id: `<letter><seed>-<index>` (corpus entries are ids, never recorded outputs)
+        for id in &extra {
+            let core = id.trim_start_matches("corpus-");
+            let letter_len = core.chars().take_while(|c| c.is_ascii_alphabetic()).count();
+            let rest = &core[letter_len..];
+            let mut it = rest.split('-');
+            let seed_: u64 = it.next().and_then(|x| x.parse().ok()).unwrap_or(1);
+            let index: u64 = it.next().and_then(|x| x.parse().ok()).unwrap_or(0);
+            let line = match args[2].as_str() {
+                "C16" => c16::one(core, seed_, index),
+                "C09" | "C10" => c09::one(&args[2], core, seed_, index),
+                "C12" | "C06" | "C20" => c12::one(&args[2], core, seed_, index),
+                _ => None,
+            };
+            if let Some(l) = line {
+                writeln!(out, "{}", l).unwrap();
+            }
+        }
+        out.flush().unwrap();
+        return;
+    }
     match (args[1].as_str(), args[2].as_str()) {
         ("gen", "C16") => c16::generate(seed, &tier, &mut out),
+        ("gen", "C12") => c12::generate("C12", seed, &tier, &mut out),
+        ("gen", "C06") => c12::generate("C06", seed, &tier, &mut out),
+        ("gen", "C20") => c12::generate("C20", seed, &tier, &mut out),
         ("gen", "C13") => c13::generate(seed, &tier, &mut out),
         ("gen", "C09") => c09::generate("C09", seed, &tier, &mut out),
         ("gen", "C10") => c09::generate("C10", seed, &tier, &mut out),
